@@ -171,6 +171,9 @@ def bounds():
     widths = st.one_of(
         st.integers(0, 12),
         st.sampled_from([0, 1, 999, 1000, 1001, 4000, 10**6, 2**31, MAXI // 2]),
+        # widths whose half sits just below a power of ten (float log10 rounds up there)
+        st.builds(lambda k, j: 2 * 10**k - j, st.integers(3, 18), st.integers(0, 4)),
+        st.builds(lambda k, j: 10**k + j, st.integers(3, 18), st.integers(-2, 2)),
         st.integers(0, MAXI),
     )
     los = st.one_of(st.integers(-20, 20), st.sampled_from([-MAXI, -(MAXI - 1), -1000, 0, 1]), st.integers(-MAXI, MAXI))
@@ -387,8 +390,13 @@ class DeciderIntFacet(Facet):
     def strategy(self, tier):
         return st.builds(
             lambda b, kind, seed, genes: {"lo": b[0], "hi": b[1], "kind": kind, "seed": seed, "genes": genes},
-            bounds(),
-            st.sampled_from(["base-scripted", "base-native", "dsge"]),
+            st.one_of(
+                bounds(),
+                bounds(),
+                # huge widths whose half is a power of ten, or just below / above one
+                st.builds(lambda lo, k, j: (lo, lo + 2 * 10**k - j), st.sampled_from([0, 0, 1, -5, -(10**15)]), st.integers(12, 18), st.integers(-3, 5)).filter(lambda b: b[1] <= MAXI),
+            ),
+            st.sampled_from(["base-scripted", "base-scripted", "base-native", "dsge"]),
             st.integers(0, 2**32),
             st.lists(st.integers(0, 1024), min_size=0, max_size=5),
         )
